@@ -52,7 +52,7 @@ class TomlArgumentType(Enum):
             return isinstance(value, bool)
 
         if self == TomlArgumentType.int:
-            return isinstance(value, int)
+            return isinstance(value, int) and not isinstance(value, bool)
 
         if self == TomlArgumentType.string:
             return isinstance(value, str)
